@@ -27,7 +27,11 @@ RULE = (
     "2- and 3-operand compositions in every bracketing, transform form x point shape x vectors flag, 12 Euler orders x 3 notations x "
     "9^3 angle lattice x angle-tensor form x homogeneous flag, quaternion/rotation-vector lattice (signs x axes x angles up to pi), "
     "transform getters/setters x parameter kind; distinct = (sub-check, argument form, value-table entry); non-trivial = the returned "
-    "map differs from the identity"
+    "map differs from the identity. Memory layout: every tensor operand of a reduced menu of calls (9 operand-kind pairs of "
+    "homogeneous_matmul/hmm, homogeneous_transform matrix and points, as_homogeneous_matrix, homogeneous_matrix+offset, "
+    "euler_rotation_matrix/angles, 9 kornia conversions, 9 transform setters x Parameter/buffer) given as transposed view of a "
+    "transposed copy, step-sliced view and stride-0 expanded batch, one operand at a time and all together: same result as with "
+    "contiguous operands, no exception, operand unchanged"
 )
 EXPLANATION = "exhaustive comparison of deepali's homogeneous/rotation algebra with float64 textbook algebra over all argument forms"
 ASSUMPTIONS = [
@@ -39,7 +43,7 @@ ASSUMPTIONS = [
 ]
 MIN_NONTRIVIAL = {"quick": 6000, "thorough": 25000}
 MIN_OUTCOMES = {"quick": 8000, "thorough": 50000}
-MIN_SUB_TRACES = {"matmul": 300, "matmul3": 1000, "transform": 500, "as_matrix": 60, "reuse": 100, "euler": 500, "euler_order": 30, "euler_angles": 50, "quat": 300, "getset": 100}
+MIN_SUB_TRACES = {"matmul": 300, "matmul3": 1000, "transform": 500, "as_matrix": 60, "reuse": 100, "layout": 300, "euler": 500, "euler_order": 30, "euler_angles": 50, "quat": 300, "getset": 100}
 
 EPS = {"f32": 2.0 ** -23, "f64": 2.0 ** -52}
 DT = {"f32": torch.float32, "f64": torch.float64, "i64": torch.int64}
@@ -1230,7 +1234,148 @@ def case_reuse(case, ctx):
         _cmp(ctx, sig + "/operand-map-changed/sequential", _np(s2).reshape(fexp(False).shape), fexp(False), C * EPS["f32"] * scale, f"D={D} form {f}: t applied after b, after t was used in {fn}", kind="value")
 
 
+# ---------------------------------------------------------------------------
+# memory layout of operand tensors
+LAYOUTS = ["transposed", "sliced", "expanded"]
+
+
+def layout_targets(seed):
+    """name -> (callable, [contiguous operand tensors], kwargs). Every operand with a leading batch dim has size NB there."""
+    import deepali.spatial as S
+    from deepali.core import affine as A
+    from deepali.core import linalg as L
+
+    T = {}
+    kinds = {"t": "t(N,D,1)", "A": "A(N,D,D)", "H": "H(N,D,D+1)"}
+    for D in (3, 2):
+        for fn in ("homogeneous_matmul", "hmm"):
+            if D == 2 and fn != "hmm":
+                continue
+            for ka, fa in kinds.items():
+                for kb, fb in kinds.items():
+                    a, _ = make_operand(fa, D, 41, seed)
+                    b, _ = make_operand(fb, D, 42, seed)
+                    T[f"{fn}[{ka}x{kb},D={D}]"] = (getattr(L, fn), [a, b], {})
+        for fa, fb in (("t(D,)", "H(D,D+1)"), ("H(D,D+1)", "t(D,)"), ("A(D,D)", "H(D,D+1)"), ("H(D,D+1)", "A(D,D)")):
+            a, _ = make_operand(fa, D, 43, seed)
+            b, _ = make_operand(fb, D, 44, seed)
+            T[f"homogeneous_matmul[{fa}x{fb},D={D}]"] = (L.homogeneous_matmul, [a, b], {})
+        for k, f in kinds.items():
+            t, _ = make_operand(f, D, 45, seed)
+            p, _ = _points("(N,M,D)", D, seed, "f32")
+            T[f"homogeneous_transform[{k},(N,M,D),D={D}]"] = (L.homogeneous_transform, [t, p], {})
+            T[f"as_homogeneous_matrix[{k},D={D}]"] = (L.as_homogeneous_matrix, [t], {})
+            off = torch.tensor(_dyadic(NB * D, 46, seed).reshape(NB, D), dtype=torch.float32)
+            T[f"homogeneous_matrix+offset[{k},D={D}]"] = (L.homogeneous_matrix, [t, off], {})
+        t, _ = make_operand("H(D,D+1)", D, 47, seed)
+        p, _ = _points("(M,D)", D, seed, "f32")
+        T[f"homogeneous_transform[H(D,D+1),(M,D),vectors,D={D}]"] = (L.homogeneous_transform, [t, p], {"vectors": True})
+        T[f"transform_points[H(D,D+1),(M,D),D={D}]"] = (A.transform_points, [t, p], {})
+    am = angle_menu(seed)
+    ang = torch.tensor([[am[1], am[5], am[3]], [am[7], am[3], am[1]], [am[5], am[7], am[8]]], dtype=torch.float32)
+    for order in ("xyz", "zxz", "yzy"):
+        T[f"euler_rotation_matrix[{order}]"] = (A.euler_rotation_matrix, [ang], {"order": order, "homogeneous": True})
+    T["euler_rotation_matrix[2D]"] = (A.euler_rotation_matrix, [ang[:, :1].contiguous()], {})
+    for order in ("zxz", "xzx"):
+        R = torch.tensor(np.stack([H.euler(order, r) for r in _np(ang)]), dtype=torch.float32)
+        T[f"euler_rotation_angles[{order},(N,3,3)]"] = (A.euler_rotation_angles, [R], {"order": order})
+        T[f"euler_rotation_angles[{order},(N,3,4)]"] = (A.euler_rotation_angles, [torch.cat([R, torch.zeros(NB, 3, 1)], 2)], {"order": order})
+    R2 = torch.tensor(np.stack([H.rot2(a) for a in (am[1], am[5], am[7])]), dtype=torch.float32)
+    T["euler_rotation_angles[2D]"] = (A.euler_rotation_angles, [R2], {})
+    lat = quat_lattice(seed)
+    pick = [lat[i] for i in (38, 45, 56)]  # generic axes, angles 0.3 .. 2.9, both signs
+    Q = torch.tensor(np.stack([q for q, _, _, _ in pick]), dtype=torch.float32)
+    Rq = torch.tensor(np.stack([H.quat_to_matrix(q) for q, _, _, _ in pick]), dtype=torch.float32)
+    AA = torch.tensor(np.stack([np.asarray(ax, float) / np.linalg.norm(ax) * a for _, _, a, ax in pick]), dtype=torch.float32)
+    for name, arg in (("quaternion_to_rotation_matrix", Q), ("normalize_quaternion", Q * 2.5), ("quaternion_to_angle_axis", Q), ("quaternion_exp_to_log", Q),
+                      ("rotation_matrix_to_quaternion", Rq), ("rotation_matrix_to_angle_axis", Rq), ("angle_axis_to_quaternion", AA),
+                      ("angle_axis_to_rotation_matrix", AA), ("quaternion_log_to_exp", AA / 2)):
+        T[name] = (getattr(L, name), [arg], {})
+    Rt = Rq.transpose(-1, -2).contiguous()  # values of the inverse rotations
+
+    def setter(cls_name, D, method, kind, **ckw):
+        def run(arg):
+            t = getattr(S, cls_name)(_tgrid(D), groups=NB, params=(kind == "param"), **ckw)
+            getattr(t, method)(arg)
+            return t.matrix()
+
+        return run
+
+    for kind in ("param", "buffer"):
+        T[f"QuaternionRotation.matrix_[{kind}]"] = (setter("QuaternionRotation", 3, "matrix_", kind), [Rt], {})
+        T[f"QuaternionRotation.quaternion_[{kind}]"] = (setter("QuaternionRotation", 3, "quaternion_", kind), [Q], {})
+        T[f"EulerRotation.matrix_[{kind}]"] = (setter("EulerRotation", 3, "matrix_", kind), [T["euler_rotation_angles[zxz,(N,3,3)]"][1][0]], {})
+        T[f"EulerRotation.angles_[{kind}]"] = (setter("EulerRotation", 3, "angles_", kind), [ang], {})
+        T[f"EulerRotation.matrix_[2D,{kind}]"] = (setter("EulerRotation", 2, "matrix_", kind), [R2], {})
+        T[f"AnisotropicScaling.scales_[{kind}]"] = (setter("AnisotropicScaling", 3, "scales_", kind), [torch.tensor([[0.5, 1.25, 2.0], [0.75, 2.0, 0.5], [1.25, 0.75, 2.5]])], {})
+        T[f"Shearing.angles_[{kind}]"] = (setter("Shearing", 3, "angles_", kind), [torch.tensor([[0.2, -0.3, 0.5], [0.7, 0.2, -0.75], [-0.3, 0.5, 0.2]])], {})
+        T[f"Translation.offset_[{kind}]"] = (setter("Translation", 3, "offset_", kind), [torch.tensor(_dyadic(NB * 3, 48, seed).reshape(NB, 3), dtype=torch.float32)], {})
+        T[f"HomogeneousTransform.matrix_[{kind}]"] = (setter("HomogeneousTransform", 3, "matrix_", kind), [make_operand("H(N,D,D+1)", 3, 49, seed)[0]], {})
+    return T
+
+
+def layout_cases(seed):
+    from ref.layout import applicable
+
+    out = []
+    for name, (_, ops, _) in layout_targets(seed).items():
+        which = [str(i) for i in range(len(ops))] + (["all"] if len(ops) > 1 else [])
+        for w in which:
+            idx = range(len(ops)) if w == "all" else [int(w)]
+            for form in LAYOUTS:
+                if form == "expanded":
+                    ok = all(ops[i].ndim >= 2 and ops[i].shape[0] == NB for i in idx)
+                else:
+                    ok = all(applicable(ops[i], form) for i in idx)
+                if ok:
+                    out.append({"sub": "layout", "target": name, "operand": w, "layout": form, "seed": seed})
+    return out
+
+
+def case_layout(case, ctx):
+    """Same values, different memory layout of the operand(s): no exception, same result as with contiguous operands, operand unchanged."""
+    from ref.layout import relayout
+
+    name, w, form, seed = case["target"], case["operand"], case["layout"], case["seed"]
+    fn, ops, kw = layout_targets(seed)[name]
+    sub = name.split("[")[0]
+    sig = f"C08/layout/fn={sub}/target={name}/operand={w}/layout={form}"
+    ctx.acc.state("layout", name, w, form)
+    ctx.acc.trace("layout")
+    idx = list(range(len(ops))) if w == "all" else [int(w)]
+    ref_ops, tst_ops = [], []
+    for i, o in enumerate(ops):
+        if i in idx:
+            if form == "expanded":
+                ref_ops.append(relayout(o[0], "repeat", NB))
+                tst_ops.append(relayout(o[0], "expanded", NB))
+            else:
+                ref_ops.append(relayout(o, "contig"))
+                tst_ops.append(relayout(o, form))
+        else:
+            ref_ops.append(o.clone())
+            tst_ops.append(o.clone())
+    for i in idx:
+        if tst_ops[i].is_contiguous() and form != "expanded" and tst_ops[i].numel() > 1:
+            ctx.acc.undef("layout:variant is contiguous for this shape")
+            return
+    ref = ctx.call(f"C08/layout/fn={sub}/target={name}/operand={w}/layout=contig", fn, *ref_ops, **kw)
+    if ref is None:
+        return
+    res = ctx.call(sig, fn, *tst_ops, **kw)
+    if res is None:
+        return
+    ctx.acc.outcome("layout", name, w, form, tensor_bytes(res))
+    ctx.acc.nontriv("layout", name, w, form)
+    if not isinstance(res, torch.Tensor) or not isinstance(ref, torch.Tensor):
+        ctx.bad(sig + "/type", f"returned {type(res).__name__}")
+        return
+    scale = float(ref.detach().abs().max()) + 1.0
+    _cmp(ctx, sig, _np(res), _np(ref), C * EPS["f32"] * scale, f"{name}: operand {w} given as {form} view vs contiguous")
+
+
 SUBS = {
+    "layout": case_layout,
     "quat_tiny": case_quat_tiny,
     "reuse": case_reuse,
     "matmul": case_matmul,
@@ -1346,6 +1491,10 @@ def cases_quat(tier, seed):
     return out
 
 
+def cases_layout(tier, seed):
+    return layout_cases(seed)
+
+
 def cases_getset(tier, seed):
     out = []
     for kind in ("param", "buffer"):
@@ -1369,12 +1518,14 @@ GENERATORS = [
     ("euler_angles", cases_euler_angles, 4),
     ("quat", cases_quat, 2),
     ("getset", cases_getset, 4),
+    ("layout", cases_layout, 60),
 ]
 
 
 def bounds(tier):
     b = {"D": [2, 3], "operand_forms": len(FORMS), "batch_N": NB, "euler_orders": 12, "notations": 3, "angle_lattice": 9 ** 3, "point_forms": len(POINT_FORMS),
-         "quaternion_lattice": len(quat_lattice(0)), "matmul3_forms": len(FORMS if tier == "thorough" else FORMS_REDUCED)}
+         "quaternion_lattice": len(quat_lattice(0)), "matmul3_forms": len(FORMS if tier == "thorough" else FORMS_REDUCED),
+         "layout_forms": ["contig"] + LAYOUTS, "layout_targets": len(layout_targets(0))}
     for name, gen, _ in GENERATORS:
         b["cases_" + name] = len(gen(tier, 0))
     return b
